@@ -197,10 +197,16 @@ func MannWhitneyUTest(x1, x2 []float64, alt LocationHypothesis) (*MannWhitneyUTe
 			p = dist.CDF(U1)
 
 		case LocationGreater:
-			// With ties U takes half-integer values, so
-			// P(U >= U1) = 1 - P(U <= U1-0.5). Without ties
-			// the CDF rounds its argument down to U1-1.
-			p = 1 - dist.CDF(U1-0.5)
+			// P(U >= U1) is the lower tail at U2 of the
+			// mirrored distribution (negate all values:
+			// the tie vector is reversed). Summing it
+			// directly keeps small p-values accurate;
+			// 1 - CDF(U1-0.5) cancels and can be negative.
+			rT := make([]int, len(T))
+			for i, t := range T {
+				rT[len(T)-1-i] = t
+			}
+			p = UDist{N1: n1, N2: n2, T: rT}.CDF(U2)
 		}
 	} else {
 		// Use normal approximation (with tie and continuity
